@@ -102,8 +102,9 @@ def install_spy(spy):
         tm._evaluate = spy
         return tm
 
-    wrapped.cache_clear = real.cache_clear
-    wrapped.cache_info = real.cache_info
+    for attr in ("cache_clear", "cache_info"):
+        if hasattr(real, attr):
+            setattr(wrapped, attr, getattr(real, attr))
     P.cachable_tensor_method = wrapped
     return real
 
@@ -112,7 +113,7 @@ def uninstall_spy(real):
     import tensora.compile._porcelain as P
 
     P.cachable_tensor_method = real
-    real.cache_clear()
+    bridge.clear_kernel_cache()
 
 
 def empty_tensor(dims, fmt):
